@@ -165,6 +165,15 @@ func c18mutants(g c18cfg) []c18mut {
 					continue
 				}
 				other := g.Pipelines[q][len(g.Pipelines[q])-1].Name
+				own := false
+				for _, x := range g.Pipelines[p] {
+					if x.Name == other {
+						own = true // p has a stage of that name itself (e.g. an unnamed stage of the same task): not a broken reference
+					}
+				}
+				if own {
+					continue
+				}
 				m := g.clone()
 				m.Pipelines[p][i].Deps = append(m.Pipelines[p][i].Deps, other)
 				ms = append(ms, c18mut{"depends_on", m, fmt.Sprintf("%s[%d].depends_on+=%s(of %s)", p, i, other, q)})
